@@ -778,8 +778,13 @@ def move_before_loop(source: str) -> str:
             new_node.lineno = scope.lineno - 1
             new_node.col_offset = scope.col_offset
 
-            source = processing.alter_code(source, root, additions=[new_node], removals=[node])
-            return move_before_loop(source)
+            new_source = processing.alter_code(
+                source, root, additions=[new_node], removals=[node]
+            )
+            if new_source == source:
+                continue  # The change was refused
+
+            return move_before_loop(new_source)
 
     return source
 
@@ -1336,8 +1341,11 @@ def _swap_implicit_if_else(source: str) -> str:
                 break
 
     if replacements or removals:
-        source = processing.alter_code(source, root, replacements=replacements, removals=removals)
-        return _swap_explicit_if_else(source)
+        new_source = processing.alter_code(
+            source, root, replacements=replacements, removals=removals
+        )
+        if new_source != source:  # The change may be refused
+            return _swap_explicit_if_else(new_source)
 
     return source
 
@@ -3646,8 +3654,11 @@ def missing_context_manager(source: str) -> str:
         break
 
     if replacements:
-        source = processing.alter_code(source, root, replacements=replacements, removals=removals)
-        return missing_context_manager(source)
+        new_source = processing.alter_code(
+            source, root, replacements=replacements, removals=removals
+        )
+        if new_source != source:  # The change may be refused
+            return missing_context_manager(new_source)
 
     return source
 
